@@ -287,4 +287,95 @@ theorem group_get (rs rb os ob : Nat) (ref : BlockAddr) (more : List BlockAddr) 
     simp only [List.getD_cons_succ]
     congr 2 <;> omega
 
+/-- the same with arbitrary bytes following the store block (the next store blocks of the file):
+the 8-byte window of `extract_bits` may reach into them, the mask cuts them off -/
+theorem group_extract_tail (rs rb os ob : Nat) (ref : BlockAddr) (more : List BlockAddr) (lastStop : Nat)
+    (g : GroupFits rs rb os ob ref more lastStop) (rest : List UInt8) (idx : Nat) (f : Nat × Nat)
+    (hf : (groupFields rs rb os ob ref more lastStop)[idx]? = some f) (hw : f.2 ≤ 57) :
+    extractBits (bitPack (groupFields rs rb os ob ref more lastStop) ++ rest)
+      (bitPos (groupFields rs rb os ob ref more lastStop) idx) f.2 = f.1 := by
+  have hfit := group_fit rs rb os ob ref more lastStop g
+  have hv := bitPack_val _ hfit
+  have hlen := bitPack_length _ hfit
+  rw [extractBits_spec _ _ _ hw, streamNat_append, hv, pow256, hlen]
+  have htot : bitPos (groupFields rs rb os ob ref more lastStop) (groupFields rs rb os ob ref more lastStop).length
+      = ((groupFields rs rb os ob ref more lastStop).map (·.2)).sum := by
+    unfold bitPos; rw [List.take_length]
+  generalize hT : ((groupFields rs rb os ob ref more lastStop).map (·.2)).sum = T at *
+  have hpad : 8 * ((T + 7) / 8) = T + (8 * ((T + 7) / 8) - T) := by omega
+  rw [hpad, Nat.pow_add, Nat.mul_assoc]
+  have := packNat_field _ (fun x hx => (hfit x hx).1) idx f hf
+    (2 ^ (8 * ((T + 7) / 8) - T) * streamNat rest)
+  rw [htot] at this
+  exact this
+
+theorem group_get_tail (rs rb os ob : Nat) (ref : BlockAddr) (more : List BlockAddr) (lastStop : Nat)
+    (g : GroupFits rs rb os ob ref more lastStop) (rest : List UInt8) (i : Nat) (hi : i ≤ more.length) :
+    (groupMeta rs rb os ob ref more).get (bitPack (groupFields rs rb os ob ref more lastStop) ++ rest) i
+      = some ⟨((ref :: more).getD i ref).firstOrd, ((ref :: more).getD i ref).start,
+              startAt more lastStop i⟩ := by
+  have hfit := group_fit rs rb os ob ref more lastStop g
+  unfold StoreMeta.get
+  cases i with
+  | zero =>
+    simp only [if_true, groupMeta, StoreMeta.rangeShift, List.getD_cons_zero]
+    obtain ⟨hf, hp⟩ := start_field rs rb os ob ref more lastStop 0 (Nat.zero_le _)
+    have he := group_extract_tail rs rb os ob ref more lastStop g rest 0 _ hf g.rb57
+    simp only [Nat.mul_zero] at hp he
+    rw [hp] at he
+    simp only [Nat.zero_mul, Nat.add_zero] at he
+    rw [he]
+    have hrb := read_back ref.start rs rb 1 (startAt more lastStop 0 - ref.start) g.rb1
+      (by simpa using g.startFit 0 (Nat.zero_le _))
+    have hge := g.startsGe 0 (Nat.zero_le _)
+    simp only [Nat.add_zero, Nat.mul_one] at hrb
+    congr 2
+    rw [hrb]; omega
+  | succ j =>
+    have hj : j < more.length := by omega
+    simp only [Nat.succ_ne_zero, if_false, Nat.add_sub_cancel, groupMeta, StoreMeta.rangeShift,
+      StoreMeta.ordShift]
+    have hnot : ¬ (j ≥ more.length) := by omega
+    simp only [hnot, if_false]
+    obtain ⟨hfs, hps⟩ := start_field rs rb os ob ref more lastStop j (by omega)
+    obtain ⟨hfo, hpo⟩ := ord_field rs rb os ob ref more lastStop j hj
+    obtain ⟨hfe, hpe⟩ := start_field rs rb os ob ref more lastStop (j + 1) (by omega)
+    have es := group_extract_tail rs rb os ob ref more lastStop g rest _ _ hfs g.rb57
+    have eo := group_extract_tail rs rb os ob ref more lastStop g rest _ _ hfo g.ob57
+    have ee := group_extract_tail rs rb os ob ref more lastStop g rest _ _ hfe g.rb57
+    rw [hps] at es; rw [hpo] at eo; rw [hpe] at ee
+    try simp only at es eo ee
+    have a1 : (ob + rb) * j = j * (rb + ob) := by rw [Nat.mul_comm, Nat.add_comm]
+    have a3 : j * (rb + ob) + (ob + rb) = (j + 1) * (rb + ob) := by
+      rw [Nat.succ_mul, Nat.add_comm ob rb]
+    rw [a1, a3, es, eo, ee]
+    have hlen := bitPack_length _ hfit
+    rw [group_widths] at hlen
+    have hbound : ¬ (((j + 1) * (rb + ob) + rb + 7) / 8
+        > (bitPack (groupFields rs rb os ob ref more lastStop) ++ rest).length) := by
+      rw [List.length_append, hlen]
+      have : (j + 1) * (rb + ob) ≤ more.length * (rb + ob) := Nat.mul_le_mul_right _ (by omega)
+      have h2 : ((j + 1) * (rb + ob) + rb + 7) / 8 ≤ (more.length * (rb + ob) + rb + 7) / 8 :=
+        Nat.div_le_div_right (by omega)
+      omega
+    simp only [hbound, if_false]
+    have hrs := read_back ref.start rs rb (j + 1) (startAt more lastStop j - ref.start) g.rb1
+      (by have := g.startFit j (by omega); rwa [Nat.add_comm] at this)
+    have hro := read_back ref.firstOrd os ob (j + 1) ((more.getD j ref).firstOrd - ref.firstOrd) g.ob1
+      (by have := g.ordFit j hj; rwa [Nat.add_comm] at this)
+    have hre := read_back ref.start rs rb (j + 2) (startAt more lastStop (j + 1) - ref.start) g.rb1
+      (by have := g.startFit (j + 1) (by omega); rwa [Nat.add_comm] at this)
+    have e1 : (1 : Nat) + j = j + 1 := Nat.add_comm _ _
+    have e2 : (1 : Nat) + (j + 1) = j + 2 := by omega
+    rw [e1, e2]
+    rw [hro, hrs, hre]
+    have hge1 := g.startsGe j (by omega)
+    have hge2 := g.startsGe (j + 1) (by omega)
+    have hmem : more.getD j ref ∈ more := by
+      rw [List.getD_eq_getElem?_getD, List.getElem?_eq_getElem hj]; simp
+    have hge3 := g.ordsGe _ hmem
+    rw [startAt_lt (ref := ref) more lastStop j hj] at hge1 ⊢
+    simp only [List.getD_cons_succ]
+    congr 2 <;> omega
+
 end TantivyModel.SSTable
